@@ -3,7 +3,7 @@
 # Confirms an agent's change in its own scratch worktree (tools/seed_confirm.sh), and if the suite passes with the change, the
 # demonstration fails with it and passes without it, keeps it as /verif/seeded/<dir-name>/ and removes the worktree.
 set -u
-wt="$1"; name="$2"; round="${3:-4}"
+wt="$1"; name="$2"; round="${3:-5}"
 out=$(/verif/tools/seed_confirm.sh "$wt" 2>&1 | grep -E "^(suite_with_change|demo_with_change|demo_without_change|RESULT)")
 echo "$out"
 echo "$out" | grep -q "suite_with_change: test result: ok. 654 passed" || { echo "NOT KEPT: suite"; exit 1; }
